@@ -12,7 +12,7 @@
 From Coq Require Import Permutation.
 From Base Require Import Prelude.
 From C07 Require Import Event Model Spec ProofsSort ProofsSets ProofsAuth ProofsGraph ProofsPower
-  ProofsMainline ProofsClosure ProofsResolve ProofsClasses Witness.
+  ProofsMainline ProofsClosure ProofsResolve ProofsFuel ProofsClasses Witness.
 
 (** ** The exposed sort *)
 
@@ -173,38 +173,18 @@ Print Assumptions C07_mainline_eq_spec_with_deviation.
 
 (** ** The composition *)
 
-(** For every acyclic store of state events with H_create, every enumeration of every hash
-    container: the model of [resolve] returns the map computed by the specification's
-    algorithm with the two deviations of the open findings.
-    Named partial because of one hypothesis that is a fact about the model, not about the
-    input: the fuel of the graph traversal suffices ([build_graph <> None]); the missing glue
-    is the LIFO argument that a node popped a second time pushes nothing. *)
-Theorem C07_resolve_eq_spec_with_deviations_partial :
-  forall (st : store) (auth : event -> (key -> option event) -> bool) (auth_types : event -> option (list key))
-         (rank : id -> nat),
-  (forall i e a, fetch st i = Some e -> In a (e_auth e) -> (rank a < rank i)%nat) ->
-  (forall i, known st i = true -> (rank i < List.length st)%nat) ->
-  (forall i e a, fetch st i = Some e -> In a (e_auth e) -> known st a = true) ->
-  all_state_events st ->
-  (forall i e, fetch st i = Some e -> auth_keys_unique st e) ->
-  auth_local auth auth_types ->
-  forall (c : id) (ce : event) (cr : str), h_create st c ce cr -> pl_wf st ->
-  (forall i e, fetch st i = Some e -> i <> c -> In c (e_auth e)) ->
-  (forall full control, build_graph st full control <> None) ->
-  forall (sets : list smap) (chains : list (list id)),
-  maps sets -> (forall ch, In ch chains -> NoDup ch) ->
-  (forall s k i, In s sets -> In (k, i) s -> known st i = true) ->
-  (conflicted_events sets = [] -> auth_difference chains = []) ->
-  forall o : oracles, perm_oracles o ->
-  exists m R, resolve st auth auth_types o sets chains = Ok m
-              /\ resolve_spec st auth auth_types false false sets chains = Some R
-              /\ smap_equiv m R.
-Proof. exact resolve_eq_spec_dev. Qed.
-Eval compute in "PA:C07_resolve_eq_spec_with_deviations_partial"%string.
-Print Assumptions C07_resolve_eq_spec_with_deviations_partial.
+(** The graph traversal never runs out of fuel (so the only [Panic] of the model's
+    [reverse_topological_power_sort] is unreachable). *)
+Theorem C07_build_graph_total :
+  forall (st : store) (full events : list id), build_graph st full events <> None.
+Proof. exact build_graph_total. Qed.
+Eval compute in "PA:C07_build_graph_total"%string.
+Print Assumptions C07_build_graph_total.
 
-(** Outside the classes of the two open findings that is the literal specification. *)
-Theorem C07_resolve_eq_spec_partial :
+(** For every acyclic store of state events with H_create and every enumeration of every hash
+    container: the model of [resolve] returns the map computed by the specification's
+    algorithm with the two deviations of the open findings ... *)
+Theorem C07_resolve_eq_spec_with_deviations :
   forall (st : store) (auth : event -> (key -> option event) -> bool) (auth_types : event -> option (list key))
          (rank : id -> nat) (c : id) (ce : event) (cr : str) (sets : list smap) (chains : list (list id)) (o : oracles),
   (forall i e a, fetch st i = Some e -> In a (e_auth e) -> (rank a < rank i)%nat) ->
@@ -215,7 +195,30 @@ Theorem C07_resolve_eq_spec_partial :
   auth_local auth auth_types ->
   h_create st c ce cr -> pl_wf st ->
   (forall i e, fetch st i = Some e -> i <> c -> In c (e_auth e)) ->
-  (forall full control, build_graph st full control <> None) ->
+  maps sets -> (forall ch, In ch chains -> NoDup ch) ->
+  (forall s k i, In s sets -> In (k, i) s -> known st i = true) ->
+  (conflicted_events sets = [] -> auth_difference chains = []) ->
+  perm_oracles o ->
+  exists m R, resolve st auth auth_types o sets chains = Ok m
+              /\ resolve_spec st auth auth_types false false sets chains = Some R
+              /\ forall k, klookup k m = klookup k R.
+Proof. exact resolve_eq_spec_with_deviations. Qed.
+Eval compute in "PA:C07_resolve_eq_spec_with_deviations"%string.
+Print Assumptions C07_resolve_eq_spec_with_deviations.
+
+(** ... and outside the classes of the two open findings that is the literal specification
+    (DESIGN.md A.6): [forall x, ~ KnownClass x -> P x]. *)
+Theorem C07_resolve_eq_spec :
+  forall (st : store) (auth : event -> (key -> option event) -> bool) (auth_types : event -> option (list key))
+         (rank : id -> nat) (c : id) (ce : event) (cr : str) (sets : list smap) (chains : list (list id)) (o : oracles),
+  (forall i e a, fetch st i = Some e -> In a (e_auth e) -> (rank a < rank i)%nat) ->
+  (forall i, known st i = true -> (rank i < List.length st)%nat) ->
+  (forall i e a, fetch st i = Some e -> In a (e_auth e) -> known st a = true) ->
+  all_state_events st ->
+  (forall i e, fetch st i = Some e -> auth_keys_unique st e) ->
+  auth_local auth auth_types ->
+  h_create st c ce cr -> pl_wf st ->
+  (forall i e, fetch st i = Some e -> i <> c -> In c (e_auth e)) ->
   maps sets -> (forall ch, In ch chains -> NoDup ch) ->
   (forall s k i, In s sets -> In (k, i) s -> known st i = true) ->
   (conflicted_events sets = [] -> auth_difference chains = []) ->
@@ -225,9 +228,9 @@ Theorem C07_resolve_eq_spec_partial :
   exists m R, resolve st auth auth_types o sets chains = Ok m
               /\ resolve_spec st auth auth_types true true sets chains = Some R
               /\ forall k, klookup k m = klookup k R.
-Proof. exact resolve_eq_spec_partial. Qed.
-Eval compute in "PA:C07_resolve_eq_spec_partial"%string.
-Print Assumptions C07_resolve_eq_spec_partial.
+Proof. exact resolve_eq_spec. Qed.
+Eval compute in "PA:C07_resolve_eq_spec"%string.
+Print Assumptions C07_resolve_eq_spec.
 
 (** ** Witnesses of the two classes (the statements above cannot be strengthened) *)
 Theorem C07_finding_mainline_witness :
